@@ -180,14 +180,16 @@ func (p *Program) InlineNewHelpers(baseline *Baseline) {
 		if len(in.Inlined) > 0 {
 			for _, fd := range p.AllFuncDeclsRaw(pkg) {
 				if !p.hidden[fd] {
+					for round := 0; round < 4 && in.norm.coalesceMultiCopies(fd); round++ {
+					}
 					in.norm.canonCompare(fd) // `*(&x)` left by pointer arguments
 					in.norm.canonArrayTable(fd)
 					// a state struct handed from phase to phase is, with the phases inlined, a bundle of locals
-					if in.norm.scalarReplace(fd) {
-						for round := 0; round < 3; round++ {
-							if !in.norm.substituteLocals(fd, pkg.PkgPath+"."+FuncName(fd), baseline.Locals[pkg.PkgPath+"."+FuncName(fd)]) {
-								break
-							}
+					in.norm.scalarReplace(fd)
+					// locals that came in with inlined bodies (or out of a split struct) and only abbreviate a read
+					for round := 0; round < 3; round++ {
+						if !in.norm.substituteLocals(fd, pkg.PkgPath+"."+FuncName(fd), baseline.Locals[pkg.PkgPath+"."+FuncName(fd)]) {
+							break
 						}
 					}
 					// a tagged switch that came in with an inlined body is new to this function
